@@ -102,7 +102,7 @@ def the_slot(p):
     return None
 
 
-def prepare(lib, wd):
+def prepare(lib, wd, shared=False):
     os.makedirs(os.path.join(wd, "tokens"))
     conf(wd)
     p = P11(lib)
@@ -114,7 +114,11 @@ def prepare(lib, wd):
     rv, s = p.open_session(the_slot(p), True)
     assert p.login(s, K.CKU_SO, SO) == 0 and p.init_pin(s, USER) == 0
     assert p.logout(s) == 0 and p.login(s, K.CKU_USER, USER) == 0
+    if not shared:
+        p.finalize()
+        return
     # for the "unwrappriv" calls: a public wrapping key on the token and a blob holding the known secret UNWRAPPED_SECRET
+    # (only for the shared-state programs: the others count the secret keys on the token)
     rv, wk = p.create_object(s, [(K.CKA_CLASS, K.CKO_SECRET_KEY), (K.CKA_KEY_TYPE, K.CKK_AES), (K.CKA_TOKEN, True),
                                  (K.CKA_PRIVATE, False), (K.CKA_ID, b"wk"), (K.CKA_VALUE, bytes(range(32))), (K.CKA_WRAP, True),
                                  (K.CKA_UNWRAP, True)])
@@ -651,7 +655,7 @@ def main():
     os.makedirs(workdir, exist_ok=True)
     template = os.path.join(workdir, "template")
     if not os.path.exists(template):
-        prepare(lib, template)
+        prepare(lib, template, shared_family(progs))
     wd = os.path.join(workdir, "run")
     os.makedirs(wd, exist_ok=True)
     conf(wd)
